@@ -7,6 +7,7 @@ result at a width that can hold the result interval and both operands
 no wrap-around to assume away.  Comparisons give Bool proxies whose __bool__
 asks the path explorer (decision prefix + re-execution, both sides checked
 for feasibility)."""
+import math
 import time
 import z3
 
@@ -256,16 +257,25 @@ class BV:
             return True
         return self._cmp(o, lambda a, b: a != b)
 
+    # ordering against a float (e.g. `s > order / 2` under true division): exact, through floor/ceil of the float
     def __lt__(self, o):
+        if isinstance(o, float):
+            return self._cmp(math.ceil(o), lambda a, b: a < b)
         return self._cmp(o, lambda a, b: a < b)
 
     def __le__(self, o):
+        if isinstance(o, float):
+            return self._cmp(math.floor(o), lambda a, b: a <= b)
         return self._cmp(o, lambda a, b: a <= b)
 
     def __gt__(self, o):
+        if isinstance(o, float):
+            return self._cmp(math.floor(o), lambda a, b: a > b)
         return self._cmp(o, lambda a, b: a > b)
 
     def __ge__(self, o):
+        if isinstance(o, float):
+            return self._cmp(math.ceil(o), lambda a, b: a >= b)
         return self._cmp(o, lambda a, b: a >= b)
 
     def __bool__(self):
